@@ -111,12 +111,12 @@ pub fn err_str(e: &Error) -> String {
     let m = e.get_msg();
     if m == "hv-io" {
         "err:io".to_string()
-    } else if m == "utf-8 encoding error" {
-        let note = e.get_note();
-        let n: String = note.chars().filter(|c| c.is_ascii_digit()).collect();
-        format!("err:enc:{}", n)
     } else {
-        format!("err:other:{}", m.replace(' ', "_"))
+        // the only other error the interpreter can raise is the output-encoding error; its wording is not fixed by any
+        // property: the value is the first decimal numeral of the diagnostic (message, then note)
+        let text = format!("{} | {}", e.get_note(), m);
+        let n: String = text.chars().skip_while(|c| !c.is_ascii_digit()).take_while(|c| c.is_ascii_digit()).collect();
+        format!("err:enc:{}", n)
     }
 }
 
